@@ -57,7 +57,10 @@ def run(ctx):
 
     # ---- device id
     did = strip(info.get("device_id", ("top", "missing")))
-    ok = call_is(did, "int.from_bytes") and len(did[2]) >= 2 and did[2][1] == ("const", "little")
+    def unsigned(t):
+        kw = dict(t[3]) if len(t) > 3 and t[3] else {}
+        return "signed" not in kw or kw["signed"] == ("const", False)
+    ok = call_is(did, "int.from_bytes") and len(did[2]) >= 2 and did[2][1] == ("const", "little") and unsigned(did)
     width = None
     if ok:
         f = strip(did[2][0])
@@ -83,7 +86,7 @@ def run(ctx):
         t = strip(t)
         return t[0] == "slice" and strip(t[1]) == D and t[2] == ("const", lo) and t[3] == ("const", hi) and t[4] is None
     port = strip(info.get("port", ("top", "missing")))
-    ctx.ob("C17.a", gi.qual, call_is(port, "int.from_bytes") and body_slice(port[2][0], 4, 6) and port[2][1] == ("const", "little"),
+    ctx.ob("C17.a", gi.qual, call_is(port, "int.from_bytes") and body_slice(port[2][0], 4, 6) and port[2][1] == ("const", "little") and unsigned(port),
            "port = little-endian body[4:6]", func=gi.qual, file=file, construct="port", detail={"term": show(port)[:120]},
            fail=f"port is read as `{show(port)[:100]}`")
     sn = strip(info.get("sn", ("top", "missing")))
@@ -279,6 +282,10 @@ def run(ctx):
     s_ok = bool(sends) and all(c[2][0] == ("const", msg) and strip(c[2][1])[0] == "tuple" and strip(strip(c[2][1])[1][0]) == ("attr", ("param", sd.params[0]), "_target") for c in sends)
     ctx.ob("C17.d", sd.qual, ports == [6445, 20086] and s_ok, "the probe is sent to the target on ports 6445 and 20086", func=sd.qual, file=file, construct="_send_discovery",
            detail={"ports": ports}, fail=f"the probe is sent to ports {ports} / with another payload or target")
+    # ---- C17.t18 "every device that answers with a well-formed reply is reported" needs the other hosts' replies, whatever they are, not to
+    # abort the run: the per-host containment and de-duplication obligations of C18 are re-run here, not assumed
+    from . import c18
+    ctx.import_rules(c18, "t18")
     ctx.require_min("info_fields", 7)
     ctx.require_min("handover_sites", 1)
     ctx.require_min("device_attrs", 7)
